@@ -1051,8 +1051,13 @@ int Graph::project(const ColaOptions &opts, vpsc::Dim dim, int accept) {
 int Graph::projectOntoSepCo(const ColaOptions &opts, SepCo_SP sepco, int accept) {
     updateColaGraphRep();
     ColaOptions opts2(opts);
+    // The constraints generated for the SepCo are ours, and live only for
+    // the duration of the projection.
+    const size_t numGiven = opts2.ccs.size();
     sepco->generateColaConstraints(m_cgr, opts2.ccs);
-    return project(opts2, sepco->dim, accept);
+    int result = project(opts2, sepco->dim, accept);
+    for (size_t i = numGiven; i < opts2.ccs.size(); ++i) delete opts2.ccs[i];
+    return result;
 }
 
 bool Graph::applyProjSeq(const ColaOptions &opts, ProjSeq &ps, int accept) {
